@@ -13,11 +13,9 @@ import (
 	"time"
 
 	"github.com/containerd/containerd/v2/pkg/reference"
-	"github.com/containerd/stargz-snapshotter/fs/layer"
 	"github.com/containerd/stargz-snapshotter/store"
 	digest "github.com/opencontainers/go-digest"
 
-	"verifharness/internal/nodefs"
 	"verifharness/internal/prng"
 	"verifharness/internal/vf"
 )
@@ -163,15 +161,24 @@ func randomCfg(rng *prng.R) worldCfg {
 	return worldCfg{noPrefetch: rng.Bool(), noBackgroundFetch: !rng.Chance(1, 4), chunk: int64(rng.Pick(300, 1024, 50000)), dirCache: rng.Chance(1, 3)}
 }
 
-const nDirected = 18
+const nScenarios = 9
+const nDirected = 2 * nScenarios
 
 // genSeqCase is a pure function of (seed, tier, idx).
 func genSeqCase(r *vf.Run, p *pool, idx int) *seqCase {
-	rng := r.RNG(1, uint64(idx))
-	c := &seqCase{idx: idx}
-	tag := fmt.Sprintf("s%d", idx)
 	if idx < nDirected {
-		return directedCase(c, rng, p, tag)
+		return genCase(r, p, 1, idx, idx/2, idx%2, "s")
+	}
+	return genCase(r, p, 1, idx, -1, 0, "s")
+}
+
+// genCase draws case idx of the given stream; scenario >= 0 selects a directed scenario.
+func genCase(r *vf.Run, p *pool, stream uint64, idx, scenario, variant int, tagPrefix string) *seqCase {
+	rng := r.RNG(stream, uint64(idx))
+	c := &seqCase{idx: idx}
+	tag := fmt.Sprintf("%s%d", tagPrefix, idx)
+	if scenario >= 0 {
+		return directedCase(c, rng, p, tag, scenario, variant)
 	}
 	c.wc = randomCfg(rng)
 	c.ims = composeImages(rng, p, rng.Range(2, 3), 4, tag)
@@ -249,10 +256,9 @@ func genSeqCase(r *vf.Run, p *pool, idx int) *seqCase {
 
 // directedCase builds the short fixed scenarios that are executed first, so that the
 // witness recorded for a violation key is a minimal history.
-func directedCase(c *seqCase, rng *prng.R, p *pool, tag string) *seqCase {
+func directedCase(c *seqCase, rng *prng.R, p *pool, tag string, scenario, variant int) *seqCase {
 	perm := rng.Perm(len(p.esgz))
 	la, lb, lc, ld := p.esgz[perm[0]], p.esgz[perm[1]], p.esgz[perm[2]], p.esgz[perm[3]]
-	variant := c.idx % 2
 	c.wc = worldCfg{noPrefetch: variant == 0, noBackgroundFetch: true, chunk: 50000, dirCache: variant == 0}
 	two := &imageSpec{repo: "c16/two", tag: "v" + tag, published: true, layers: []*layerSpec{la, lb}}
 	one := &imageSpec{repo: "c16/one", tag: "v" + tag, published: true, layers: []*layerSpec{lc}}
@@ -265,7 +271,7 @@ func directedCase(c *seqCase, rng *prng.R, p *pool, tag string) *seqCase {
 	X := &key{id: 5, img: two, imgNo: 0, dig: la.built.Digest, kind: "blob-digest"}
 	c.keys = []*key{A, B, C, U, F, X}
 	o := func(k opKind, key *key) op { return op{kind: k, key: key.id} }
-	switch c.idx / 2 {
+	switch scenario {
 	case 0:
 		c.directed = "release-to-zero-then-lookup"
 		c.ops = []op{o(opUse, A), o(opDiff, A), o(opRelease, A), o(opDiff, A)}
@@ -302,7 +308,7 @@ func directedCase(c *seqCase, rng *prng.R, p *pool, tag string) *seqCase {
 
 type hold struct {
 	k     *key
-	root  *nodefs.N
+	root  tree
 	valid bool // uses[(ref,D)] > 0 continuously since before the lookup that produced it
 }
 
@@ -310,6 +316,7 @@ type seqRun struct {
 	r   *vf.Run
 	c   *seqCase
 	w   *world
+	drv driver
 	rng *prng.R
 	log []string
 
@@ -373,13 +380,18 @@ func runSeqCase(r *vf.Run, p *pool, idx int) {
 		r.Inconclusive("world setup failed: " + errClass(err))
 		return
 	}
+	runCase(r, "seq", c, w, inproc{w}, idx < 2 || idx == nDirected || idx == nDirected+1)
+}
+
+// runCase executes the operation sequence of c on world w through drv under the model.
+func runCase(r *vf.Run, stage string, c *seqCase, w *world, drv driver, sample bool) {
 	// the absent image of a "no-image" key needs its parsed reference
 	for _, k := range c.keys {
 		if !k.img.published {
 			k.img.ref = mustRef(k.img)
 		}
 	}
-	s := &seqRun{r: r, c: c, w: w, rng: r.RNG(11, uint64(idx)),
+	s := &seqRun{r: r, c: c, w: w, drv: drv, stage: stage, rng: r.RNG(11, prng.Hash64(uint64(len(stage))), uint64(c.idx)),
 		uses: map[int]int{}, imgUses: map[int]int{}, usedInEpoch: map[string]bool{}, lookedHeld: map[int]bool{},
 		dropped: map[int]string{}, faultedRef: map[int]bool{}, zeroThenOK: map[int]bool{}, pending: map[int]bool{}}
 	defer s.cleanup()
@@ -395,12 +407,12 @@ func runSeqCase(r *vf.Run, p *pool, idx int) {
 		r.Count("us_epilogue", int(time.Since(t).Microseconds()))
 	}
 	if s.nontrivial {
-		r.NonTrivial("seq|" + strings.Join(c.imagesShape(), ",") + "|" + c.script())
-		r.Count("seq_cases_nontrivial", 1)
+		r.NonTrivial(stage + "|" + strings.Join(c.imagesShape(), ",") + "|" + c.script())
+		r.Count(stage+"_cases_nontrivial", 1)
 	}
-	r.Count("seq_cases", 1)
-	if idx < 2 || idx == nDirected || idx == nDirected+1 {
-		r.Sample(map[string]any{"stage": "seq", "case": idx, "images": c.imagesDesc(), "history": s.log})
+	r.Count(stage+"_cases", 1)
+	if sample {
+		r.Sample(map[string]any{"stage": stage, "case": c.idx, "images": c.imagesDesc(), "history": s.log})
 	}
 }
 
@@ -417,6 +429,9 @@ func (c *seqCase) imagesShape() []string {
 }
 
 func (s *seqRun) cleanup() {
+	for _, h := range s.holds {
+		h.root.close()
+	}
 	t := time.Now()
 	defer func() { s.r.Count("us_cleanup", int(time.Since(t).Microseconds())) }()
 	s.w.heal()
@@ -460,7 +475,7 @@ func (s *seqRun) exec(o op) {
 
 func (s *seqRun) use(k *key) {
 	var n int
-	if !s.call(fmt.Sprintf("use(%s)", k), func() { n = s.w.lm.VerifUse(k.img.ref, k.dig) }) {
+	if !s.call(fmt.Sprintf("use(%s)", k), func() { n = s.drv.use(k) }) {
 		return
 	}
 	s.uses[k.id]++
@@ -476,7 +491,7 @@ func (s *seqRun) use(k *key) {
 func (s *seqRun) release(k *key) {
 	var n int
 	var err error
-	if !s.call(fmt.Sprintf("release(%s)", k), func() { n, err = s.w.lm.VerifRelease(bg, k.img.ref, k.dig) }) {
+	if !s.call(fmt.Sprintf("release(%s)", k), func() { n, err = s.drv.release(k) }) {
 		return
 	}
 	before := s.uses[k.id]
@@ -626,9 +641,9 @@ func (s *seqRun) lookup(k *key, blobMode bool) {
 		s.faultedRef[k.imgNo] = true
 	}
 	mark := s.w.reg.Requests()
-	var l layer.Layer
+	var l *looked
 	var err error
-	if !s.call(fmt.Sprintf("%s(%s)", name, k), func() { l, err = s.w.lm.VerifGetLayer(bg, k.img.ref, k.dig) }) {
+	if !s.call(fmt.Sprintf("%s(%s)", name, k), func() { l, err = s.drv.lookup(k, blobMode) }) {
 		return
 	}
 	if !s.w.quiesce() {
@@ -665,11 +680,11 @@ func (s *seqRun) lookup(k *key, blobMode bool) {
 	}
 	s.log = append(s.log, fmt.Sprintf("%s(%s)=ok", name, k))
 	if !expectOK {
-		s.violate("lookup:succeeds-for-other-digest", fmt.Sprintf("%s of %s (%s digest %s, which is not the TOC digest of any layer of the image) returned a layer with TOC digest %s",
-			name, k, k.kind, k.dig, l.Info().TOCDigest))
+		s.violate("lookup:succeeds-for-other-digest", fmt.Sprintf("%s of %s (%s digest %s, which is not the TOC digest of any layer of the image) succeeded (TOC digest of what came back: %q)",
+			name, k, k.kind, k.dig, l.toc))
 		return
 	}
-	if got := l.Info().TOCDigest; got != k.dig {
+	if got := l.toc; got != "" && got != k.dig.String() {
 		s.violate("lookup:returns-layer-with-other-digest", fmt.Sprintf("%s of %s (TOC digest %s) returned the layer with TOC digest %s", name, k, k.dig, got))
 		return
 	}
@@ -692,27 +707,32 @@ func (s *seqRun) lookup(k *key, blobMode bool) {
 	}
 	// what the FUSE node does with the layer
 	if blobMode {
-		if err := l.Verify(k.dig); err != nil {
-			s.violate("lookup:layer-unusable", fmt.Sprintf("%s of %s succeeded but Verify failed: %v", name, k, err))
-			return
-		}
-		if err := readBlob(l, k.spec, s.rng); err != nil {
-			s.violate("lookup:blob-read-wrong", fmt.Sprintf("%s of %s: %v", name, k, err))
+		if err := l.readBlob(k.spec, s.rng); err != nil {
+			if isMismatch(err) {
+				s.violate("lookup:blob-differs-from-published", fmt.Sprintf("%s of %s: %v", name, k, err))
+			} else {
+				s.violate("lookup:layer-unusable", fmt.Sprintf("%s of %s succeeded but the blob cannot be read: %v; state: %s", name, k, err, s.w.state().describe(k.img.ref.String(), s.w)))
+			}
 		}
 		return
 	}
-	s.w.nextID++
-	root, err := openDiff(l, k.dig, s.w.nextID)
+	root, err := l.open()
 	if err != nil {
 		s.violate("lookup:layer-unusable", fmt.Sprintf("%s of %s succeeded but the layer cannot be opened: %v", name, k, err))
 		return
 	}
-	if err := readFiles(root, k.spec, s.rng, 2); err != nil {
-		s.violate("lookup:content-differs-from-tar", fmt.Sprintf("%s of %s: %v", name, k, err))
+	if err := root.readFiles(k.spec, s.rng, 2); err != nil {
+		root.close()
+		if isMismatch(err) {
+			s.violate("lookup:content-differs-from-tar", fmt.Sprintf("%s of %s: %v", name, k, err))
+		} else {
+			s.violate("lookup:layer-unusable", fmt.Sprintf("%s of %s succeeded but the layer cannot be read: %v; state: %s", name, k, err, s.w.state().describe(k.img.ref.String(), s.w)))
+		}
 		return
 	}
 	s.r.Count("files_read_and_verified", 2)
 	if len(s.holds) >= 6 {
+		s.holds[0].root.close()
 		s.holds = s.holds[1:]
 	}
 	s.holds = append(s.holds, &hold{k: k, root: root, valid: s.uses[k.id] > 0})
@@ -721,7 +741,7 @@ func (s *seqRun) lookup(k *key, blobMode bool) {
 func (s *seqRun) info(k *key) {
 	var li store.Layer
 	var err error
-	if !s.call(fmt.Sprintf("lookup-info(%s)", k), func() { li, err = s.w.lm.VerifGetLayerInfo(bg, k.img.ref, k.dig) }) {
+	if !s.call(fmt.Sprintf("lookup-info(%s)", k), func() { li, err = s.drv.info(k) }) {
 		return
 	}
 	s.log = append(s.log, fmt.Sprintf("lookup-info(%s)=%s", k, errClass(err)))
@@ -766,12 +786,16 @@ func (s *seqRun) holdRead() {
 		return
 	}
 	var err error
-	if !s.call(fmt.Sprintf("held-read(%s)", h.k), func() { err = readFiles(h.root, h.k.spec, s.rng, 2) }) {
+	if !s.call(fmt.Sprintf("held-read(%s)", h.k), func() { err = h.root.readFiles(h.k.spec, s.rng, 2) }) {
 		return
 	}
 	if err != nil {
 		s.log = append(s.log, fmt.Sprintf("held-read(%s)=err", h.k))
-		s.violate("use-held:read-fails", fmt.Sprintf("a read through the layer of %s, looked up while in use and in use ever since (%d outstanding uses), failed: %v; state: %s",
+		vk := "use-held:read-fails"
+		if isMismatch(err) {
+			vk = "use-held:content-differs-from-tar"
+		}
+		s.violate(vk, fmt.Sprintf("a read through the layer of %s, looked up while in use and in use ever since (%d outstanding uses), failed: %v; state: %s",
 			h.k, s.uses[h.k.id], err, s.w.state().describe(h.k.img.ref.String(), s.w)))
 		h.valid = false
 		return
@@ -823,8 +847,10 @@ func (s *seqRun) epilogue() {
 		// expired, each layer object must have been closed (its cache directory removed).
 		// Only checked when the manager holds nothing: layers that were looked up without
 		// any use of their image stay cached by design (no "last use" event for them).
-		if fsc, _ := s.w.cacheDirs(); fsc != 0 {
-			s.violate("release-to-zero:layer-resources-leaked", fmt.Sprintf("the manager holds no layer any more and the resolver's caches are expired, but %d layer objects were never closed (fscache directories left)", fsc))
+		live, res := s.w.liveLayerDirs()
+		s.r.Count("fscache_dirs_recreated_after_close(not judged)", res)
+		if live != 0 {
+			s.violate("release-to-zero:layer-resources-leaked", fmt.Sprintf("the manager holds no layer any more and the resolver's caches are expired, but %d layer objects were never closed (their fscache directories are intact)", live))
 		} else {
 			s.r.Count("drained_worlds_without_leftover", 1)
 		}
